@@ -406,6 +406,10 @@ def wide_key(rng):
     k = "".join(rng.choice(KEY_ALPHABET) for _ in range(n))
     if rng.random() < 0.3:
         k = rng.choice(WORDS) + rng.choice(["", "-", " ", ".", '"']) + k
+    if rng.random() < 0.25:
+        # characters that need escaping inside the quoted alias / metadata string
+        pos = rng.randint(0, len(k))
+        k = k[:pos] + rng.choice(['"', "\\", '\\"', "'"]) + k[pos:]
     return k
 
 
@@ -439,6 +443,8 @@ def key_cases(chk, n):
             samples[0] = {nested_key: dict(obj), "z9": 1}
             samples[1] = {nested_key: dict(obj), "z9": None}
         fw = rng.choice(FRAMEWORKS)
+        if any(ch in k_ for k_ in keys for ch in '"\\') and rng.random() < 0.6:
+            fw = rng.choice(["pydantic", "sqlmodel"])        # the frameworks that write the key into the code as an alias
         kw = {}
         if fw in ("attrs", "dataclasses"):
             kw["meta"] = rng.random() < 0.7
